@@ -501,7 +501,10 @@ def run_unit(name, workdir, rlimit=None, seed=None, twins=True):
     except Exception:
         pass
     for c in g.contracted:
-        ty = c["fnpath"].rsplit("::", 1)[0].split("@")[0] if "::" in c["fnpath"] else None
+        ty = None
+        for r0 in regs:
+            if r0["name"] == c["name"] and c["region"][0] <= r0["start"] <= c["region"][1]:
+                ty = r0["type"]
         cands = [v for k, v in fb.items() if k.split("::")[-1] == c["name"] and v.get("mode:") != "spec"]
         if len(cands) > 1 and ty:
             cands2 = [v for v in cands if ("::" + ty + "::") in v["function"]]
@@ -524,16 +527,22 @@ def run_unit(name, workdir, rlimit=None, seed=None, twins=True):
         pl = prim[0]["line"] if prim else (e["spans"][0]["line"] if e["spans"] else None)
         reg = region_of(pl) if pl else None
         where = None
-        if reg:
-            c = contracted_by_name.get(reg["name"])
-            where = c["fnpath"] if c else reg["name"]
+        cby = None
+        if pl:
+            for c in g.contracted:
+                if c["region"][0] <= pl <= c["region"][1]:
+                    cby = c
+        if cby:
+            where = cby["fnpath"]
+        elif reg:
+            where = reg["name"]
         if hit:
             for oid in set(hit):
                 o = res["obligations"][oid]
                 o["status"] = "failed"
                 o["diag"].append(dict(message=e["message"], rendered=e["rendered"], in_fn=where))
         else:
-            c = contracted_by_name.get(reg["name"]) if reg else None
+            c = cby
             if c:
                 oid = "%s/%s#safety" % (name, c["fnpath"])
                 o = res["obligations"][oid]
